@@ -35,7 +35,7 @@
    false = counters start at zero for every file.  The check instantiates it from a probe of the real code.
 
    Executable definitions only (extracted by coq/extraction/ExtractC10.v); proofs are in GenStateThm*.v. *)
-From Verif Require Export GenStateDict LinePPInst Gen_Uniq.
+From Verif Require Export GenStateDict LinePPInst Gen_Uniq GenStateSites.
 From Verif Require Import Lookup.
 Open Scope N_scope.
 
@@ -68,6 +68,23 @@ Definition lru_call (f : ckey -> str) (maxsize : option nat) (c : cache) (k : ck
   match cache_get c k with
   | Some v => ((k, v) :: cache_remove c k, v)
   | None => let v := f k in (cache_trim maxsize ((k, v) :: c), v)
+  end.
+
+(* the same table looked up through a projection of the call's arguments: what a memo does whose key keeps less than the
+   function reads (an argument whose __eq__/__hash__ ignore part of it, a key without `self`) *)
+Definition proj_call (proj : ckey -> ckey) (f : ckey -> str) (maxsize : option nat) (c : cache) (k : ckey) : cache * str :=
+  match cache_get c (proj k) with
+  | Some v => ((proj k, v) :: cache_remove c (proj k), v)
+  | None => let v := f k in (cache_trim maxsize ((proj k, v) :: c), v)
+  end.
+
+(* the key a memoisation SITE of the scanned inventory uses for a call (self, q): the whole call if the site is admissible
+   (keyed by the identity of self and by-value arguments, value not modified by callers), a key that has lost the call
+   otherwise.  A call that names no site of the table is not memoised at all. *)
+Definition memo_proj (sites : list site) (i : nat) (k : ckey) : ckey :=
+  match nth_error sites i with
+  | Some st => if site_ok st then k else (0, [])
+  | None => k
   end.
 
 (* ---------------- type objects and the dependency closure ---------------- *)
@@ -109,7 +126,9 @@ Inductive prog :=
 | PDone
 | PEmit (chunk : str) (k : prog)
 | PUniq (key base_token prefix suffix : str) (k : str -> prog)   (* UniqueNameGenerator.get_instance()(...) *)
-| PMemo (q : str) (k : str -> prog).                              (* a call of an lru_cache'd pure method *)
+| PMemo (site : nat) (q : str) (k : str -> prog)                  (* a call of the memoised callable at site `site` of the inventory *)
+| PPeek (k : list str -> prog).                                   (* read whatever earlier files left in long-lived objects through
+                                                                     stores the inventory does not show to be harmless *)
 
 Definition pp_fresh (p : pp) : pp :=
   match p with
@@ -122,7 +141,14 @@ Definition pp_clean (p : pp) : bool :=
 Definition pps_clean (ps : list pp) : bool := forallb pp_clean ps.
 
 Record genobj := { go_cfg : N; go_tset : tlist; go_memo : tmemo; go_pps : list pp; go_inputs : list tkey }.
-Record pstate := { p_uniq : UniqueNameGenerator_state; p_cache : cache; p_gens : list genobj }.
+Record pstate := { p_uniq : UniqueNameGenerator_state; p_cache : cache; p_gens : list genobj;
+                   p_scratch : list str }.    (* one mark per file written so far: stands for every attribute of a long-lived
+                                                 object that some render-phase code stores to *)
+
+(* everything mutable the process holds at the moment a file is rendered; `render` receives it so that "rendering consults
+   process state only through unique names, memoised callables and inventoried stores" is a PREMISE (render_pure), not the
+   type of a parameter *)
+Definition ambient := (UniqueNameGenerator_state * cache * tmemo * list pp * list str)%type.
 
 (* one generated file, as the check observes it *)
 Record entry := {
@@ -148,21 +174,26 @@ Section Run.
   Variable bases : N -> list N.           (* pydsdl class -> __bases__ without object *)
   Variable cname : N -> str.              (* pydsdl class -> __name__ *)
   Variable fuel : nat.                    (* bound of the lookup loop: more than the depth of the class forest *)
-  Variable render : N -> option str -> tyobj -> prog.    (* configuration, selected template, type object *)
+  Variable sites : list site.             (* the inventory of memoisation sites (Generated/Gen_Sites.g_sites) *)
+  Variable stores : list store.           (* the inventory of stores on long-lived objects (Gen_Sites.g_stores) *)
+  Variable rfacts : bool.                 (* the translated reset facts the class CResetPerFile relies on *)
+  Variable render : ambient -> N -> option str -> tyobj -> prog.    (* process state, configuration, selected template, type object *)
   Variable cfun : ckey -> str.            (* the memoised pure methods *)
   Variable maxsize : option nat.
   Variable resets : bool.                 (* generate_code_resets_uniq *)
   Variable lel_shared : bool.
 
-  Fixpoint run_prog (self : N) (p : prog) (u : UniqueNameGenerator_state) (c : cache)
+  (* vis: what PPeek sees during this file *)
+  Fixpoint run_prog (vis : list str) (self : N) (p : prog) (u : UniqueNameGenerator_state) (c : cache)
     : UniqueNameGenerator_state * cache * list str :=
     match p with
     | PDone => (u, c, [])
-    | PEmit s k => let '(u', c', out) := run_prog self k u c in (u', c', s :: out)
+    | PEmit s k => let '(u', c', out) := run_prog vis self k u c in (u', c', s :: out)
     | PUniq key base pre suf k =>
-        let '(u1, name) := UniqueNameGenerator_call u key base pre suf in run_prog self (k name) u1 c
-    | PMemo q k =>
-        let '(c1, v) := lru_call cfun maxsize c (self, q) in run_prog self (k v) u c1
+        let '(u1, name) := UniqueNameGenerator_call u key base pre suf in run_prog vis self (k name) u1 c
+    | PMemo i q k =>
+        let '(c1, v) := proj_call (memo_proj sites i) cfun maxsize c (self, q) in run_prog vis self (k v) u c1
+    | PPeek k => run_prog vis self (k vis) u c
     end.
 
   Definition write_file (ps : list pp) (chunks : list str) : list pp * str :=
@@ -176,27 +207,30 @@ Section Run.
     Lookup.bfs bases (tmap cname ts) Lookup.W_FS fuel [cl] [] memo.   (* one listing, one walk *)
 
   (* _generate_type + _generate_code for the type object o under configuration cf with template listing ts *)
-  Definition gen_file (cf : N) (ts : tlist) (memo : tmemo) (u : UniqueNameGenerator_state) (c : cache) (ps : list pp) (o : tyobj)
+  Definition gen_file (cf : N) (ts : tlist) (memo : tmemo) (u : UniqueNameGenerator_state) (c : cache) (ps : list pp)
+             (sc : list str) (o : tyobj)
     : tmemo * UniqueNameGenerator_state * cache * list pp * (option str * str) :=
     let '(memo1, tmpl) := select ts memo (obj_cls o) in
     let u0 := if resets then UniqueNameGenerator_init else u in
-    let '(u1, c1, chunks) := run_prog cf (render cf tmpl o) u0 c in
+    let vis := if stores_leak rfacts stores then sc else [] in      (* the per-file step consults the store inventory *)
+    let '(u1, c1, chunks) := run_prog vis cf (render (u, c, memo, ps, sc) cf tmpl o) u0 c in
     let ps0 := if lel_shared then ps else map pp_fresh ps in
     let '(ps1, text) := write_file ps0 chunks in
     (memo1, u1, c1, ps1, (tmpl, text)).
 
   (* generate_all of one generator *)
   Fixpoint run_types (cf : N) (ts : tlist) (I : list tkey) (memo : tmemo) (u : UniqueNameGenerator_state) (c : cache)
-           (ps : list pp) (order : list tkey) : tmemo * UniqueNameGenerator_state * cache * list pp * list entry :=
+           (ps : list pp) (sc : list str) (order : list tkey)
+    : tmemo * UniqueNameGenerator_state * cache * list pp * list str * list entry :=
     match order with
-    | [] => (memo, u, c, ps, [])
+    | [] => (memo, u, c, ps, sc, [])
     | k :: order' =>
         match resolve_in U I k with
-        | None => run_types cf ts I memo u c ps order'            (* not a type of this namespace *)
+        | None => run_types cf ts I memo u c ps sc order'            (* not a type of this namespace *)
         | Some o =>
-            let '(m1, u1, c1, ps1, res) := gen_file cf ts memo u c ps o in
-            let '(m2, u2, c2, ps2, es) := run_types cf ts I m1 u1 c1 ps1 order' in
-            (m2, u2, c2, ps2,
+            let '(m1, u1, c1, ps1, res) := gen_file cf ts memo u c ps sc o in
+            let '(m2, u2, c2, ps2, sc2, es) := run_types cf ts I m1 u1 c1 ps1 (sc ++ [k]) order' in
+            (m2, u2, c2, ps2, sc2,
              {| e_cfg := cf; e_tset := ts; e_pps0 := map pp_fresh ps; e_key := k; e_obj := o; e_tmpl := fst res;
                 e_clean := pps_clean ps; e_text := snd res |} :: es)
         end
@@ -227,8 +261,9 @@ Section Run.
     match o with
     | ONew cf ts pps ins =>
         ({| p_uniq := p_uniq s; p_cache := p_cache s;
-            p_gens := p_gens s ++ [{| go_cfg := cf; go_tset := ts; go_memo := []; go_pps := pps; go_inputs := ins |}] |}, [])
-    | OClear => ({| p_uniq := p_uniq s; p_cache := []; p_gens := p_gens s |}, [])
+            p_gens := p_gens s ++ [{| go_cfg := cf; go_tset := ts; go_memo := []; go_pps := pps; go_inputs := ins |}];
+            p_scratch := p_scratch s |}, [])
+    | OClear => ({| p_uniq := p_uniq s; p_cache := []; p_gens := p_gens s; p_scratch := p_scratch s |}, [])
     | ORun gid args dry order =>
         match nth_error (p_gens s) gid with
         | None => (s, [])
@@ -237,13 +272,16 @@ Section Run.
               ({| p_uniq := p_uniq s; p_cache := p_cache s;
                   p_gens := set_nth gid {| go_cfg := go_cfg g; go_tset := go_tset g;
                                            go_memo := dry_types (go_tset g) (go_inputs g) (go_memo g) order;
-                                           go_pps := go_pps g; go_inputs := go_inputs g |} (p_gens s) |}, [])
+                                           go_pps := go_pps g; go_inputs := go_inputs g |} (p_gens s);
+                  p_scratch := p_scratch s |}, [])
             else
-            let '(m1, u1, c1, ps1, es) :=
-              run_types (ecfg (go_cfg g) args) (go_tset g) (go_inputs g) (go_memo g) (p_uniq s) (p_cache s) (go_pps g) order in
+            let '(m1, u1, c1, ps1, sc1, es) :=
+              run_types (ecfg (go_cfg g) args) (go_tset g) (go_inputs g) (go_memo g) (p_uniq s) (p_cache s) (go_pps g)
+                        (p_scratch s) order in
             ({| p_uniq := u1; p_cache := c1;
                 p_gens := set_nth gid {| go_cfg := go_cfg g; go_tset := go_tset g; go_memo := m1; go_pps := ps1;
-                                         go_inputs := go_inputs g |} (p_gens s) |},
+                                         go_inputs := go_inputs g |} (p_gens s);
+                p_scratch := sc1 |},
              es)
         end
     end.
@@ -258,18 +296,15 @@ Section Run.
     end.
 
   (* a new interpreter *)
-  Definition p_init : pstate := {| p_uniq := UniqueNameGenerator_init; p_cache := []; p_gens := [] |}.
+  Definition p_init : pstate := {| p_uniq := UniqueNameGenerator_init; p_cache := []; p_gens := []; p_scratch := [] |}.
 
   (* everything written by a history that starts in a new interpreter *)
   Definition log (h : list op) : list entry := snd (exec p_init h).
 
   (* the file of o when it is the first and only file a new interpreter writes, with newly constructed processors *)
   Definition alone (cf : N) (ts : tlist) (pps0 : list pp) (o : tyobj) : option str * str :=
-    snd (gen_file cf ts [] UniqueNameGenerator_init [] pps0 o).
+    snd (gen_file cf ts [] UniqueNameGenerator_init [] pps0 [] o).
 
-  (* the chunk stream of o's template in a new interpreter *)
-  Definition file_chunks (cf : N) (ts : tlist) (o : tyobj) : list str :=
-    snd (run_prog cf (render cf (snd (select ts [] (obj_cls o))) o) UniqueNameGenerator_init []).
 End Run.
 
 (* ---------------- predicates used in the statements ---------------- *)
@@ -315,34 +350,7 @@ Definition ends_solid (chunks : list str) : bool :=
   | l :: _ => solid l
   end.
 
-(* every file the history writes ends in a solid line and every generator is constructed with zeroed counters:
-   the side condition under which LimitEmptyLines cannot carry anything across a file boundary *)
-Section Solid.
-  Variable U : universe.
-  Variable bases : N -> list N.
-  Variable cname : N -> str.
-  Variable fuel : nat.
-  Variable render : N -> option str -> tyobj -> prog.
-  Variable cfun : ckey -> str.
 
-  Definition file_solid (cf : N) (ts : tlist) (I : list tkey) (k : tkey) : bool :=
-    match resolve_in U I k with
-    | None => true
-    | Some o => ends_solid (file_chunks bases cname fuel render cfun None cf ts o)
-    end.
-
-  Fixpoint hist_solid (gens : list (N * tlist * list tkey)) (h : list op) : bool :=
-    match h with
-    | [] => true
-    | ONew cf ts pps ins :: h' => pps_clean pps && hist_solid (gens ++ [(cf, ts, ins)]) h'
-    | OClear :: h' => hist_solid gens h'
-    | ORun gid args dry order :: h' =>
-        match nth_error gens gid with
-        | None => true
-        | Some (cf, ts, ins) => dry || forallb (file_solid (cf * 16 + args) ts ins) order
-        end && hist_solid gens h'
-    end.
-End Solid.
 
 (* scripts: non-adaptive programs given as data (used by the correspondence run and the witnesses) *)
 Inductive item := IText (s : str) | IUniq (key base_token prefix suffix : str) | IMemo (q : str)
@@ -355,7 +363,7 @@ Fixpoint prog_of_script (tmpl : option str) (s : list item) : prog :=
   | [] => PDone
   | IText t :: s' => PEmit t (prog_of_script tmpl s')
   | IUniq k b p x :: s' => PUniq k b p x (fun name => PEmit name (prog_of_script tmpl s'))
-  | IMemo q :: s' => PMemo q (fun v => PEmit v (prog_of_script tmpl s'))
+  | IMemo q :: s' => PMemo 0 q (fun v => PEmit v (prog_of_script tmpl s'))
   | IMark :: s' => PEmit (mark_of tmpl) (prog_of_script tmpl s')
   end.
 
@@ -373,7 +381,7 @@ Fixpoint obj_depth (o : tyobj) : nat :=
 (* markers = true: every file additionally STARTS with the marker *)
 Definition tmpl_marker (markers : bool) (tmpl : option str) : str := if markers then mark_of tmpl else [].
 
-Definition table_render (markers : bool) (tab : list (ckey * list item)) (cf : N) (tmpl : option str) (o : tyobj) : prog :=
+Definition table_render (markers : bool) (tab : list (ckey * list item)) (_ : ambient) (cf : N) (tmpl : option str) (o : tyobj) : prog :=
   PEmit (tmpl_marker markers tmpl)
   match o with
   | TyObj k _ _ _ =>
@@ -395,7 +403,4 @@ Definition table_cfun (k : ckey) : str := snd k ++ [64] ++ dec_of_N (fst k).
 
 Definition exec_table (ct : ctable) (U : universe) (markers : bool) (tab : list (ckey * list item)) (maxsize : option nat)
            (resets lel_shared : bool) (h : list op) : list entry :=
-  log U (ct_bases ct) (ct_name ct) (S (length ct)) (table_render markers tab) table_cfun maxsize resets lel_shared h.
-
-Definition solid_table (ct : ctable) (U : universe) (markers : bool) (tab : list (ckey * list item)) (h : list op) : bool :=
-  hist_solid U (ct_bases ct) (ct_name ct) (S (length ct)) (table_render markers tab) table_cfun [] h.
+  log U (ct_bases ct) (ct_name ct) (S (length ct)) [] [] true (table_render markers tab) table_cfun maxsize resets lel_shared h.
